@@ -50,7 +50,7 @@ CLAIMS = {
          "Lean 4 theorems (erasure commutation of every strategy; table model) + correspondence under synthetic type tables"),
  "C19": ("The model is a pure function of the request list (C19_layout_is_function_partial, C19_size_order_stable); the property "
          "is carried by the tie: implementation = that function on every history, in one process (channel L) and across two "
-         "separately started processes (byte comparison). Partial by nature.", "4 C19", L_NOTE,
+         "separately started processes (byte comparison), the same history twice in a row in one process, and the same histories in reverse order in a third process (what the process did before must not matter). Partial by nature.", "4 C19", L_NOTE,
          "Lean 4 model-as-function + two-process byte comparison"),
  "C20": ("C20_replay: for every source definition built from any valid history and every target strategy (four native, two generic) the "
          "conversion helper succeeds (no builder error, no indexing or strategy panic), creates exactly one target variant per source variant, "
@@ -71,9 +71,9 @@ CLAIMS = {
  "C10": ("C10_refuse / C10_accept: layouts differing in size or alignment are refused before any element is read or the converter "
          "called, the input dropped normally; equal layouts never refused.", "4 C10", V_NOTE, "Lean 4 theorem + correspondence over a type-pair matrix"),
  "C04": ("Translated primitives (regenerated from data.rs each run): C04_store_permission (stores and &mut through as_mut_ptr on &mut self, all "
-         "use the offset); byte-level machine theorems C04_store_load / C04_store_frame; program-level theorems on the abstract machine running the "
+         "use the offset), C04_primitives_are_plain_accesses (each primitive is one recognised access of its kind); byte-level machine theorems C04_store_load / C04_store_frame; program-level theorems on the abstract machine running the "
          "generator model's programs: C04_new_get (every getter after the generated constructor returns the stored value), C04_new_unpack, "
-         "C04_set_frame (a setter changes exactly one field); C04_premises_hold_for_builder_output: the well-formedness premises (ModuleWF) are proved "
+         "C04_set_frame (a setter changes exactly one field); C04_premises_hold_for_builder_output / C04_premise_check_accepts_builder_output: the well-formedness premises (ModuleWF, decided by the executable check moduleWFB that the driver evaluates on every compiled module: C07_premise_check_decides) are proved "
          "for the specs of every definition the builder can produce from valid requests (end-to-end through the layout theorems). Channel X: the Lean "
          "machine running the Lean generator's programs predicts every value of every API operation of compiled generated modules in debug and "
          "release builds.", "4 C04", X_NOTE,
@@ -106,7 +106,7 @@ CLAIMS = {
          "fully qualified spellings of the five std types are recorded identically, at any position), C17_whitespace (two spellings of the same "
          "token sequence with any amount of whitespace before/between/after the tokens are normalised and looked up identically: lexer invariant by "
          "induction over the token list). The parser/printer pair (syn / quote) is modelled and carried by the tie: channel T compares the real normaliser with the Lean lexer+parser+rewrite+printer on ~7000 "
-         "spellings of ~1600 concrete types, and a rustc probe `fn(*mut T) -> *mut <recorded name>` (type equality, not coercibility) per type validates the resolution hypothesis; the probe also covers function-pointer, reference and raw-pointer types, which are outside the Lean grammar (compiler-decided only).", "4 C17",
+         "spellings of ~1950 concrete types (incl. all 418 of the standard table), and a rustc probe `fn(*mut T) -> *mut <recorded name>` (type equality, not coercibility) per type validates the resolution hypothesis; the probe also covers function-pointer, reference and raw-pointer types, which are outside the Lean grammar (compiler-decided only).", "4 C17",
          "Trusted: Lean kernel + standard axioms; syn/quote are modelled by a hand-written lexer/parser/printer (tied by channel T); rustc name resolution assumed as the Prelude hypothesis and validated by compile probes.",
          "Lean 4 theorems (mutual structural induction over type syntax) + correspondence on a type catalogue + rustc probes"),
 }
